@@ -14,6 +14,7 @@ import (
 	"reflect"
 	"regexp"
 	"sort"
+	"strconv"
 	"strings"
 
 	"github.com/dave/jennifer/jen"
@@ -500,12 +501,84 @@ func runGoMini(tw *TraceWriter, id int, c *Case) {
 	}
 }
 
+// runC16Mutations: a Dict is rendered with a File, then one of its KEY statements is extended (the caller still holds it)
+// so that its rendered text moves past another key, and the Dict is rendered again with the same File: the pairs must
+// again be ordered by the CURRENT text of their keys - exactly as a freshly built Dict of that shape is.
+func runC16Mutations(tw *TraceWriter, id0 int) int {
+	shapes := [][]string{{"a", "a.b", "a.d"}, {"srv", "srv.Addr", "cfg"}, {"k", "k.x", "k.y", "k.z"}, {"f", "f.g"}}
+	n := 0
+	for si, keys := range shapes {
+		for _, ext := range []string{"c", "zz", "Port"} {
+			n++
+			id := id0 + n
+			tw.Traces++
+			mk := func(extended bool) (*jen.File, []*jen.Statement) {
+				d := jen.Dict{}
+				ks := []*jen.Statement{}
+				for i, k := range keys {
+					parts := strings.Split(k, ".")
+					st := jen.Id(parts[0])
+					for _, p := range parts[1:] {
+						st.Dot(p)
+					}
+					ks = append(ks, st)
+					d[st] = jen.Lit(700 + i)
+				}
+				if extended {
+					ks[0].Dot(ext)
+				}
+				f := jen.NewFile("main")
+				f.Var().Id("_").Op("=").Id("T").Values(d)
+				return f, ks
+			}
+			f, ks := mk(false)
+			first := renderFile(f)
+			ks[0].Dot(ext) // the key statement grows after the Dict was rendered
+			second := renderFile(f)
+			ff, _ := mk(true)
+			fresh := renderFile(ff)
+			pairs, keyTexts, multiline, parsed := dictProjection(second.out)
+			fpairs, _, _, _ := dictProjection(fresh.out)
+			// the structure as it is now, for the model
+			items := []*Node{}
+			order := []int{}
+			texts := []string{}
+			for i, k := range keys {
+				parts := strings.Split(k, ".")
+				if i == 0 {
+					parts = append(parts, ext)
+				}
+				kn := stm(idn(parts[0]))
+				for _, p := range parts[1:] {
+					kn.Items = append(kn.Items, opn("."), idn(p))
+				}
+				items = append(items, &Node{K: "pair", Items: []*Node{kn, stm(lit(strconv.Itoa(700 + i)))}})
+				texts = append(texts, strings.Join(parts, " . "))
+				order = append(order, i+1)
+			}
+			sort.SliceStable(order, func(a, b int) bool { return texts[order[a]-1] < texts[order[b]-1] })
+			otree := stm(kwn("var"), idn("_"), opn("="), idn("T"), grp("values", &Node{K: "dict", Items: items, Order: order}))
+			rawf, _ := mk(true)
+			rawf.NoFormat = true
+			rv := renderFile(rawf)
+			_ = first
+			tw.Emit(Rec{"ev": "c16", "id": id, "alias": "", "pairs": [][]string{{"mutated", fmt.Sprint(si, ext)}}, "live": len(keys), "known": "",
+				"otree": otree, "order1": []int{},
+				"rv": resRec(rv, second), "expected": fpairs, "got": pairs, "parsed": parsed,
+				"sorted": sort.StringsAreSorted(keyTexts), "multiline": multiline, "nhash": 1, "norders": 1})
+			tw.Distinct("nontrivial_cases", fmt.Sprint("mutation", si, ext))
+		}
+	}
+	return n
+}
+
 func cmdCases(args []string) {
 	// usage: cases <out.ndjson> <stats.json> <cases.ndjson>... [--repeats n]
 	tw := NewTraceWriter(args[0])
 	repeats := 16
 	seen := map[string]bool{}
 	id := 0
+	mutDone := false
 	for i := 2; i < len(args); i++ {
 		if args[i] == "--repeats" {
 			i++
@@ -525,6 +598,10 @@ func cmdCases(args []string) {
 			case "c13":
 				runC13(tw, id, &c)
 			case "c16":
+				if !mutDone {
+					mutDone = true
+					id += runC16Mutations(tw, id)
+				}
 				runC16(tw, id, &c, repeats)
 			case "c15":
 				runC15(tw, id, &c)
